@@ -624,6 +624,15 @@ impl TransactionalMemory {
                 .copy_from_slice(&header.to_bytes(true));
             storage.flush()?;
         }
+        // A file that starts with the magic number but is shorter than the header was truncated;
+        // reading the header from it would read past the end of the storage
+        if storage.raw_file_len()? < DB_HEADER_SIZE as u64 {
+            return Err(StorageError::Corrupted(format!(
+                "File truncated below the database header: file_len={}",
+                storage.raw_file_len()?
+            ))
+            .into());
+        }
         let header_bytes = storage.read_direct(0, DB_HEADER_SIZE)?;
         let unrepaired =
             UnrepairedDatabaseHeader::from_bytes(&header_bytes, page_size.try_into().unwrap())?;
